@@ -153,6 +153,12 @@ func (t *Termer) Term(v ssa.Value, ps *pathState) string {
 	case *ssa.Alloc:
 		// a range-value copy (`for _, k := range key`) is named after the element it copies
 		if st := singleStore(x); st != nil {
+			// the spill cell of a parameter of an inlined helper (value receivers are spilled) is the bound argument
+			if prm, ok := st.Val.(*ssa.Parameter); ok && ps != nil {
+				if b, ok := ps.Bind[prm]; ok {
+					return t.Term(b, ps)
+				}
+			}
 			if u, ok := st.Val.(*ssa.UnOp); ok && u.Op == token.MUL {
 				if ia, ok := u.X.(*ssa.IndexAddr); ok {
 					return t.Term(ia, ps)
@@ -189,6 +195,9 @@ func (t *Termer) Term(v ssa.Value, ps *pathState) string {
 			}
 			if _, ok := x.X.(*ssa.IndexAddr); ok {
 				return inner
+			}
+			if _, ok := x.X.(*ssa.Alloc); ok && !strings.HasPrefix(inner, "alloc:") {
+				return inner // a local named after the element it copies (`for _, k := range key`)
 			}
 			return "*" + inner
 		case token.SUB:
@@ -432,7 +441,19 @@ type TabOpts struct {
 	// Values fixes SSA values to integers for constant folding (the abstract class under evaluation).
 	Values map[ssa.Value]int64
 	Limit  int
+	// NoInline switches off the inlining of helper functions that are not part of the confirmed tree.
+	NoInline bool
+	// NoSplitBool keeps `return a < b` as one path returning the comparison (default: two paths, each with the
+	// literal and a constant result, exactly as if the function had branched on the comparison).
+	NoSplitBool bool
 }
+
+// inlinable is set at load time: a module function with a body that was not part of the tree the rules were confirmed
+// on (a freshly extracted helper). Calls to such functions are transparent to the path enumeration: the callee's
+// blocks are walked in place with its parameters bound to the arguments.
+var inlinable func(fn *ssa.Function) bool
+
+const maxInlineDepth = 4
 
 // EnumLits enumerates the feasible simple paths from (start, idx) with their literals.
 func EnumLits(start *ssa.BasicBlock, idx int, o TabOpts) ([]*LPath, bool) {
@@ -447,8 +468,8 @@ func EnumLits(start *ssa.BasicBlock, idx int, o TabOpts) ([]*LPath, bool) {
 		unknown []string
 		events  []Event
 	}
-	var walk func(b *ssa.BasicBlock, idx int, ps *pathState, fr frame)
-	walk = func(b *ssa.BasicBlock, idx int, ps *pathState, fr frame) {
+	var walk func(b *ssa.BasicBlock, idx int, ps *pathState, fr frame, enter bool)
+	walk = func(b *ssa.BasicBlock, idx int, ps *pathState, fr frame, enter bool) {
 		if overflow {
 			return
 		}
@@ -457,16 +478,18 @@ func EnumLits(start *ssa.BasicBlock, idx int, o TabOpts) ([]*LPath, bool) {
 			overflow = true
 			return
 		}
-		ps.Path = append(ps.Path, b)
-		if ps.Visits == nil {
-			ps.Visits = map[*ssa.BasicBlock]int{}
-		}
-		ps.Visits[b]++
-		if ps.Gen > 0 {
-			if ps.BlockGen == nil {
-				ps.BlockGen = map[*ssa.BasicBlock]int{}
+		if enter {
+			ps.Path = append(ps.Path, b)
+			if ps.Visits == nil {
+				ps.Visits = map[*ssa.BasicBlock]int{}
 			}
-			ps.BlockGen[b] = ps.Gen
+			ps.Visits[b]++
+			if ps.Gen > 0 {
+				if ps.BlockGen == nil {
+					ps.BlockGen = map[*ssa.BasicBlock]int{}
+				}
+				ps.BlockGen[b] = ps.Gen
+			}
 		}
 		for i := idx; i < len(b.Instrs); i++ {
 			in := b.Instrs[i]
@@ -479,6 +502,28 @@ func EnumLits(start *ssa.BasicBlock, idx int, o TabOpts) ([]*LPath, bool) {
 					ps.Cells[a] = s.Val
 				}
 			}
+			if call, ok := in.(*ssa.Call); ok && !o.NoInline && inlinable != nil && len(ps.Stack) < maxInlineDepth {
+				if f := call.Common().StaticCallee(); f != nil && len(f.Blocks) > 0 && len(f.FreeVars) == 0 && inlinable(f) && len(call.Common().Args) == len(f.Params) && !onStack(ps, f) {
+					if ps.Bind == nil {
+						ps.Bind = map[*ssa.Parameter]ssa.Value{}
+					}
+					args := make([]ssa.Value, len(f.Params))
+					for k, a := range call.Common().Args {
+						args[k] = ps.Resolve(a)
+					}
+					for k, prm := range f.Params {
+						ps.Bind[prm] = args[k]
+					}
+					// a fresh instance of the callee: its blocks start unvisited
+					for _, fb := range f.Blocks {
+						delete(ps.Visits, fb)
+						delete(ps.Havoc, fb)
+					}
+					ps.Stack = append(ps.Stack, inlFrame{call: call, block: b, idx: i})
+					walk(f.Blocks[0], 0, ps, fr, true)
+					return
+				}
+			}
 			if o.EventOf != nil {
 				if ev, ok := o.EventOf(in, ps); ok {
 					ev.Instr = in
@@ -486,6 +531,53 @@ func EnumLits(start *ssa.BasicBlock, idx int, o TabOpts) ([]*LPath, bool) {
 				}
 			}
 			if r, ok := in.(*ssa.Return); ok {
+				if k := len(ps.Stack); k > 0 {
+					top := ps.Stack[k-1]
+					ps.Stack = ps.Stack[:k-1:k-1]
+					rs := make([]ssa.Value, len(r.Results))
+					for j, rv := range r.Results {
+						rs[j] = ps.Resolve(rv)
+					}
+					if ps.Ret == nil {
+						ps.Ret = map[*ssa.Call][]ssa.Value{}
+					}
+					ps.Ret[top.call] = rs
+					if ps.Resume == nil {
+						ps.Resume = map[int]bool{}
+					}
+					ps.Resume[len(ps.Path)] = true
+					ps.Path = append(ps.Path, top.block)
+					walk(top.block, top.idx+1, ps, fr, false)
+					return
+				}
+				if !o.NoSplitBool {
+					if k, v := splittableBoolResult(r, ps); k >= 0 {
+						for _, outcome := range []bool{true, false} {
+							nfr := fr
+							if fb, ok := foldCond(v, ps); ok {
+								if fb != outcome {
+									continue
+								}
+							} else if l, ok := o.Termer.litOf(v, outcome, ps); ok {
+								l.PS = ps
+								nl := append(append([]Lit(nil), fr.lits...), l)
+								if !satisfiable(append(append([]Lit(nil), nl...), o.Assume...)) {
+									continue
+								}
+								nfr.lits = nl
+							} else {
+								continue
+							}
+							nps := ps.clone()
+							if nps.Over == nil {
+								nps.Over = map[ssa.Value]ssa.Value{}
+							}
+							nps.Over[v] = ssa.NewConst(constant.MakeBool(outcome), types.Typ[types.Bool])
+							walk(b, i, nps, nfr, false)
+						}
+						return
+					}
+				}
 				out = append(out, &LPath{Lits: fr.lits, Unknown: fr.unknown, Events: fr.events, Exit: r, PS: ps})
 				return
 			}
@@ -544,17 +636,55 @@ func EnumLits(start *ssa.BasicBlock, idx int, o TabOpts) ([]*LPath, bool) {
 					}
 				}
 			}
-			walk(s, 0, nps, nfr)
+			walk(s, 0, nps, nfr, true)
 		}
 	}
-	walk(start, idx, &pathState{Cells: map[*ssa.Alloc]ssa.Value{}, Vals: o.Values}, frame{})
+	walk(start, idx, &pathState{Cells: map[*ssa.Alloc]ssa.Value{}, Vals: o.Values}, frame{}, true)
 	return out, !overflow
+}
+
+// splittableBoolResult: the first result of r that is, on this path, a comparison (or its negation) rather than a
+// constant or an opaque boolean.
+func splittableBoolResult(r *ssa.Return, ps *pathState) (int, ssa.Value) {
+	for k, rv := range r.Results {
+		if b, ok := rv.Type().Underlying().(*types.Basic); !ok || b.Kind() != types.Bool {
+			continue
+		}
+		v := ps.Resolve(rv)
+		inner := v
+		for {
+			if u, ok := inner.(*ssa.UnOp); ok && u.Op == token.NOT {
+				inner = ps.Resolve(u.X)
+				continue
+			}
+			break
+		}
+		if bo, ok := inner.(*ssa.BinOp); ok {
+			if _, isCmp := negOp[bo.Op]; isCmp {
+				return k, v
+			}
+		}
+	}
+	return -1, nil
+}
+
+func onStack(ps *pathState, f *ssa.Function) bool {
+	for _, fr := range ps.Stack {
+		if fr.call.Common().StaticCallee() == f {
+			return true
+		}
+	}
+	return false
 }
 
 // callEvents is the usual EventOf: static/interface/func-value calls by name (with argument terms), and stores to
 // named fields (with the stored value's term).
 func callEvents(p *Program) func(in ssa.Instruction, ps *pathState) (Event, bool) {
-	t := &Termer{P: p}
+	return callEventsT(p, &Termer{P: p})
+}
+
+// callEventsT: the same with the caller's Termer (custom names).
+func callEventsT(p *Program, t *Termer) func(in ssa.Instruction, ps *pathState) (Event, bool) {
 	return func(in ssa.Instruction, ps *pathState) (Event, bool) {
 		switch x := in.(type) {
 		case ssa.CallInstruction:
